@@ -51,7 +51,7 @@ def lattice_defn(points):
     xdoc.add_param(d, "FL", xdoc.ptype_num("float", xdoc.numeric_enc("flt", 32, order=g("NumericDataEncoding.byteOrder", "msb"),
                                                                       fmt="ieee" if fenc == "IEEE754" else "mil1750a")))
     adj = g("LinearAdjustment", "8x+0")
-    slope, icpt = {"none": (None, 0), "8x+0": (8, 0), "8x-8": (8, -8), "0x+16": (0, 16)}[adj]
+    slope, icpt = {"none": (None, 0), "8x+0": (8, 0), "8x-8": (8, -8), "0x+16": (0, 16), "1x+3": (1, 3), "1x+0": (1, 0)}[adj]
     rcal = g("ParameterInstanceRef.useCalibratedValue", "true") == "true"
     ls = {"k": "dyn", "ref": "N", "cal": rcal, "adj": slope is not None, "slope": slope or 0, "icpt": icpt}
     xdoc.add_param(d, "BLOB", xdoc.ptype_sb({"k": "bin", "len": ls, "delim": WHOLE, "codec": ""}))
